@@ -29,7 +29,7 @@ var (
 )
 
 func c07OpItems() []string {
-	return []string{"All", "None", "Sign", "~Sign", "Access account", "~Access account", "aLL", "SIGN", "nONE"}
+	return []string{"All", "None", "Sign", "~Sign", "Access account", "~Access account", "aLL", "SIGN", "nONE", "~All"}
 }
 
 func toPerms(t map[string][]model.PermEntry) map[string][]*checker.Permissions {
@@ -495,7 +495,7 @@ func C07(tier string) int {
 		"over_the_wire":       wire,
 		"evaluations":         calls + cells,
 		"distinct_nontrivial": len(classes) + len(sclasses),
-		"rule":                "checker grid: every one-entry table over (12 wallet patterns x 9 account patterns (literals, alternation, anchors, escape classes \\D \\W \\S) x ordered operation lists of length <= 2 (3 in thorough) over 9 items) and two-entry tables (first entry x 4 second entries), each asked for 8 wallet names x 6 account names (one containing a slash) x 3 operations x 6 client identities; verdict is one-directional: Check==true implies the reference evaluator (whole-name, case-insensitive, first bearing item) allows; service grid: 8 tables x 3 clients x 4 wallets x 3 accounts x every operation of signer (by name and by key), lister, account manager, wallet manager and generate (single-instance, and two-of-three across three real instances) on the real services: carried out only if the evaluator allows on the resolved name, and a refused request leaves decoded records and lock/account state unchanged; distinct = (dirk verdict, reference verdict) and (operation, allowed, done) classes",
+		"rule":                "checker grid: every one-entry table over (12 wallet patterns x 9 account patterns (literals, alternation, anchors, escape classes \\D \\W \\S) x ordered operation lists of length <= 2 (3 in thorough) over 10 items) and two-entry tables (first entry x 4 second entries), each asked for 8 wallet names x 6 account names (one containing a slash) x 3 operations x 6 client identities; verdict is one-directional: Check==true implies the reference evaluator (whole-name, case-insensitive, first bearing item) allows; service grid: 8 tables x 3 clients x 4 wallets x 3 accounts x every operation of signer (by name and by key), lister, account manager, wallet manager and generate (single-instance, and two-of-three across three real instances) on the real services: carried out only if the evaluator allows on the resolved name, and a refused request leaves decoded records and lock/account state unchanged; distinct = (dirk verdict, reference verdict) and (operation, allowed, done) classes",
 		"samples": []any{
 			map[string]any{"table": map[string]any{"c1": []any{map[string]any{"path": "Wallet1|Wallet2", "ops": []string{"All"}}}}, "request": "client c1, Sign on Wallet10/acc"},
 			map[string]any{"service_cell": "table 3, client c1, Lock account on Wallet1/acc by name"},
